@@ -7,6 +7,7 @@ import (
 	"github.com/goghcrow/yae/fun"
 	"github.com/goghcrow/yae/parser/ast"
 	"github.com/goghcrow/yae/parser/oper"
+	"io"
 	"os"
 	"os/exec"
 	"strings"
@@ -343,6 +344,8 @@ func facadeSugarCases() []Case {
 		{"operators-first", func() *yae.Expr {
 			return yae.NewExpr().UseBuiltIn(false).RegisterFun(funs()...).RegisterOperator(oper.BuiltIn()...)
 		}},
+		{"debug-log", func() *yae.Expr { return yae.NewExpr().EnableDebug(io.Discard) }},
+		{"bytecode-explicit", func() *yae.Expr { return yae.NewExpr().UseClosureCompiler().UseBytecodeCompiler() }},
 		{"extra-translator", func() *yae.Expr {
 			return yae.NewExpr().RegisterTranslator(func(e ast.Expr) ast.Expr { return e })
 		}},
